@@ -108,6 +108,11 @@ def folds_spec(case, pre, ctx):
     uniq_r = sorted(set(ctx.rdesc))
     uniq_p = sorted(set(ctx.pdesc))
     rnd = g.get('random', kind in ('k_fold', 'k_fold_rdm'))
+    if kind == 'hand':
+        def part(t):
+            return {'rows': t[0], 'conds': t[1], 'pidx': t[2]}
+        return {'gen': 'hand', 'folds': [{'train': part(f['train']), 'test': part(f['test']),
+                                          'ceil': part(f['ceil'])} for f in L.hand_parts(case, ctx)]}
     if kind == 'k_fold':
         if rnd:
             return {'gen': kind, 'kr': g['kr'], 'kp': g['kp'], 'rsel': ctx.rcodes(pre[0]) if pre else [],
@@ -162,6 +167,7 @@ def model_request(case, obs):
     req['e'] = lean.fbits(math.e)
     if case['routine'] == 'crossval':
         req['folds'] = folds_spec(case, pre, ctx)
+        req['ceil_given'] = case.get('ceil', 'gen') != 'omit'
     if case['routine'] == 'testset' and case.get('bt') == 'rdm':
         # bootstrap_testset_rdm always works on the `index` pattern descriptor
         req['data']['pdesc'] = list(range(case['n_cond']))
@@ -234,7 +240,7 @@ def _model_canon(case, a):
         g = case['gen']['kind']
         if not case.get('calc_nc', True):
             out['nc'] = [None, None]
-        elif g == 'k_fold_pattern':
+        elif not L.ceil_given(case):
             out['nc'] = [[uf(p[0]) for p in ncs], [uf(p[1]) for p in ncs]] if ncs else []
         else:
             out['nc'] = [uf(ncs[0][0]), uf(ncs[0][1])] if ncs else [None, None]
